@@ -9,11 +9,16 @@ def parsePair (j : Json) : Except String (Nat × Nat) := do
   if q.size != 2 then throw "pair expected"
   return (← q[0]!.getNat?, ← q[1]!.getNat?)
 
+def optInt (j : Json) (k : String) : Except String (Option Int) :=
+  match getOpt j k with
+  | some v => do return some (← v.getInt?)
+  | none => return none
+
 def parseAtom (j : Json) : Except String Atom := do
   match ← getStr j "a" with
   | "lit" => return .lit (← getInt j "n")
   | "par" => return .par (← getNat j "s") (← getNat j "i")
-  | "fn" => return .fn (← (← getArr j "deps").toList.mapM parsePair) (← getInt j "k") (← getBool j "rx")
+  | "fn" => return .fn (← (← getArr j "deps").toList.mapM parsePair) (← getInt j "k") (← getBool j "rx") (← optInt j "sk")
   | a => throw s!"unknown atom {a}"
 
 def parseRhs (j : Json) : Except String Rhs := do
@@ -32,11 +37,6 @@ def parseVal (j : Json) : Except String Val :=
   match j.getInt? with
   | .ok n => return .int n
   | .error _ => do return .tup (← (← j.getArr?).toList.mapM (·.getInt?))
-
-def optInt (j : Json) (k : String) : Except String (Option Int) :=
-  match getOpt j k with
-  | some v => do return some (← v.getInt?)
-  | none => return none
 
 def parseDecl (j : Json) : Except String (PDecl × Val) := do
   let kind ← match ← getStr j "kind" with
@@ -62,8 +62,9 @@ def jVal : Val → Json
 def jAtom : Atom → Json
   | .lit n => Json.mkObj [("a", "lit"), ("n", toJson n)]
   | .par s i => Json.mkObj [("a", "par"), ("s", toJson s), ("i", toJson i)]
-  | .fn deps k rx => Json.mkObj [("a", "fn"),
-      ("deps", Json.arr (deps.map fun d => Json.arr #[toJson d.1, toJson d.2]).toArray), ("k", toJson k), ("rx", Json.bool rx)]
+  | .fn deps k rx sk => Json.mkObj [("a", "fn"),
+      ("deps", Json.arr (deps.map fun d => Json.arr #[toJson d.1, toJson d.2]).toArray), ("k", toJson k), ("rx", Json.bool rx),
+      ("sk", match sk with | some b => toJson b | none => Json.null)]
 
 def jRhs : Rhs → Json
   | .atom a => Json.mkObj [("k", "atom"), ("a", jAtom a)]
@@ -116,11 +117,12 @@ def runModel (c : Cfg) (w0 : World) (ops : List Op) : List StepObs × List Strin
         | .set t p rhs =>
           let linked := ((w.tgts[t]?).bind (dictGet ·.refs p)).isSome
           let isRef := !(depsOf rhs (nestedOf c t p)).isEmpty
-          "set:" ++ (if isRef then "ref" else "plain") ++ (if linked then ":linked" else ":free")
+          let sk := isRef && skipsRhs c w rhs (nestedOf c t p) && r == .ok
+          "set:" ++ (if isRef then "ref" else "plain") ++ (if linked then ":linked" else ":free") ++ (if sk then ":skip" else "")
         | .setCls .. => "setCls" | .update .. => "update" | .ctxEnter .. => "ctxEnter" | .ctxExit => "ctxExit"
         | .srcSet .. => "srcSet:" ++ (if r != .ok then "sync" else if log.length > 1 then "synced" else "quiet")
       (w', { st := stateOf c w', err := errName r, log := log } :: l,
-        (kind ++ ":" ++ ((errName r).getD "ok")) :: b)) (w0, [], [])
+        (if kind.endsWith ":skip" then kind else kind ++ ":" ++ ((errName r).getD "ok")) :: b)) (w0, [], [])
   (obs.reverse, br)
 
 def handle (req : Json) : Except String Json := do
@@ -175,9 +177,9 @@ def handle (req : Json) : Except String Json := do
         pure (n, render vi, render vm)
       else do
         let iTwin ← (← getArr impl "twin").toList.mapM parseStep
-        let (mTwin, _) := runModel c w1 (twinOps (ops.zip mSteps))
-        let (n, vi) := specC02 iInit (ops.zip iSteps) iTwin
-        let (_, vm) := specC02 mInit (ops.zip mSteps) mTwin
+        let (mTwin, _) := runModel c w1 (twinOps c mInit (ops.zip mSteps))
+        let (n, vi) := specC02 c iInit (ops.zip iSteps) iTwin
+        let (_, vm) := specC02 c mInit (ops.zip mSteps) mTwin
         pure (n, vi, vm)
     return Json.mkObj [
       ("model", Json.mkObj [("ctor_err", Json.null), ("init", Json.mkObj (stateFields mInit)), ("steps", jList jStep mSteps), ("cut", toJson cut)]),
